@@ -126,7 +126,7 @@ def _variant_benign_patch(args):
         rc, rules, tail = run_check(d, pid)
         if rc == 1:
             return sid, "FALSE-ALARM", ",".join(rules)
-        if rc != want:
+        if rc != want and rc != 0:      # recorded "no verdict", now decided and silent: fine
             return sid, "changed rc=%d (recorded %d)" % (rc, want), tail[-160:].replace("\n", " ")
         return sid, "silent" if rc == 0 else "no-verdict", ""
     finally:
